@@ -21,6 +21,12 @@ pub struct VecSet {
 }
 
 impl VecSet {
+	/// keep only the first `n` tiles (the tiny tier runs under an interpreter that is 10^4 times slower)
+	pub fn truncate(&mut self, n: usize) {
+		let keep: Vec<Key> = self.blobs.keys().take(n).cloned().collect();
+		self.blobs.retain(|k, _| keep.contains(k));
+		self.layers.retain(|k, _| keep.contains(k));
+	}
 	pub fn tileset(&self, name: &str) -> TileSet {
 		TileSet {
 			format: TileFormat::PBF,
@@ -64,7 +70,8 @@ pub fn gen_vector_sets(rng: &mut Rng, n: usize, go: &imvt::GenOpts, mixed_comp: 
 					if x < 0 || y < 0 || x > m || y > m || !rng.chance(0.8) {
 						continue;
 					}
-					let ls = imvt::gen_layers(rng, go);
+					// now and then a tile without any layer (zero bytes before compression)
+					let ls = if rng.chance(0.06) { vec![] } else { imvt::gen_layers(rng, go) };
 					let raw = imvt::encode_tile(&ls, enc, rng);
 					blobs.insert((*z, x as u32, y as u32), comp::compress(&raw, c));
 					layers.insert((*z, x as u32, y as u32), ls);
@@ -93,7 +100,17 @@ pub struct CsvSpec {
 /// a CSV table keyed by ids that occur in the generated tiles (`id0..id11` / `0..11`)
 pub fn gen_csv(rng: &mut Rng) -> CsvSpec {
 	let id_col = "id".to_string();
-	let cols = ["id", "kind", "population", "ratio", "flag", "note"];
+	// the id column plus any subset of the value columns — now and then none at all (a plain id list)
+	let all = ["kind", "population", "ratio", "flag", "note"];
+	let mut cols: Vec<&str> = vec!["id"];
+	if !rng.chance(0.2) {
+		let keep_all = rng.chance(0.5);
+		for c in all {
+			if keep_all || rng.bool() {
+				cols.push(c);
+			}
+		}
+	}
 	let mut text = cols.join(",");
 	text.push('\n');
 	let mut rows = BTreeMap::new();
@@ -107,6 +124,7 @@ pub fn gen_csv(rng: &mut Rng) -> CsvSpec {
 		r.insert("ratio".to_string(), format!("{}.{}", rng.below(10), rng.range(1, 99)));
 		r.insert("flag".to_string(), (*rng.pick(&["true", "false"])).to_string());
 		r.insert("note".to_string(), format!("n{}", rng.below(9)));
+		r.retain(|k, _| cols.contains(&k.as_str()));
 		text.push_str(&cols.iter().map(|c| r[*c].clone()).collect::<Vec<_>>().join(","));
 		text.push('\n');
 		rows.insert(id, r);
